@@ -110,7 +110,7 @@ def run_property(prop, tier='quick', seed=0, jobs=None, limit=None, verbose=Fals
     opts = dict(getattr(mod, 'OPTS', {}))
     opts.setdefault('canary_every', 10)
     opts.setdefault('fidelity_every', 25 if tier == 'quick' else 10)
-    opts.setdefault('cvc5_every', 0 if tier == 'quick' else 40)
+    opts.setdefault('cvc5_every', 150 if tier == 'quick' else 40)
     opts['tier'] = tier
     descs = list(mod.cases(tier, seed))
     for i, d in enumerate(descs):
